@@ -2,9 +2,9 @@
 //! case: {"cfg":{..}, "rules":[.. each optionally with "act":{..}], "reqs":[..]}  (format: src/router_gen.rs)
 //! The request is handed to the router un-normalised (`trace_request` / `get_trace` rebuild it
 //! themselves, matching is run on `rebuild_request(q)`), as the explain entry points do.
-//! obs per request: {"t": sorted distinct ids listed by the trace, "m": sorted ids of
-//!   match_request(rebuild_request(q)), "fp": priority of get_trace().final_route, "gp": priority of
-//!   get_route(rebuild_request(q))}
+//! obs per request: {"t": sorted ids listed by the trace (a rule living in several accepting ip
+//!   buckets is listed once per bucket), "m": sorted ids of match_request(rebuild_request(q)),
+//!   "fp": priority of get_trace().final_route, "gp": priority of get_route(rebuild_request(q))}
 //! Oracles on the implementation alone:
 //!   trace-routes      set(t) == set(m)
 //!   final-priority    fp == gp
@@ -155,12 +155,12 @@ fn run(case: &Value) -> Obs {
                 let dup = t_with_dups.windows(2).any(|w| w[0] == w[1]);
                 fail = Some((
                     format!("last TraceAction step differs from the live action (trace lists {:?}): {} vs {}", t_with_dups, last_action, live_json),
-                    if dup { "trace-action-last/route-listed-twice" } else { "trace-action-last" },
+                    if dup { "trace-action-route-twice" } else { "trace-action-last" },
                 ));
             }
         }
         any_match |= !m.is_empty();
-        obs.push(json!({"t": t, "m": m, "fp": fp, "gp": gp}));
+        obs.push(json!({"t": t_with_dups, "m": m, "fp": fp, "gp": gp}));
     }
     let mut o = Obs::new(Value::Array(obs)).trivial(rules_d.is_empty() || reqs_d.is_empty());
     o.tags.extend(rule_tags(rules_d));
